@@ -599,7 +599,63 @@ func checkC06Self(u *url.Url, b *url.Url, tok string) {
 	orc.Fail("C06", class, fmt.Sprintf("%s against %s", q(u.Href(false)), q(b.Href(false))), tok)
 }
 
+// crossBases: base strings that parsers with different options read differently (consecutive slashes, a port that is the
+// default only under a custom table, a '|' drive letter, a lone '%', an empty file path, a host only the lax parser accepts)
+var crossBases = []string{"http://example.com/a//b/c?x#y", "gopher://h:70/a/b?q#f", "file:///C|/d/e?q#f", "http://h/a%zz/b%?q%#f%", "file://h", "http://h/a/b/", "sc://h:70/p//q/",
+	"http://a b/x/y?q#f", "http://h/\xff/y?\xfe#f", "http://u:p@h:80/p?a'b#`", "sc:/a//b|/c", "http://h//", "file:////x//y"}
+var crossRefs = []string{"", "d", "?q2", "#f2", "../e", "/r//s", "//h2:70/z", "?", "x//y"}
+
+// checkC06Cfg: the agreement of the entry points under ONE parser c: resolving against the base string equals parsing the
+// base with that parser and resolving against the value
+func checkC06Cfg(c *Cfg, baseStr, ref, tok string) {
+	orc.Eval("C06")
+	u1, e1 := c.Parser.ParseRef(baseStr, ref)
+	b, eb := c.Parser.Parse(baseStr)
+	var u2 *url.Url
+	var e2 error
+	if eb != nil {
+		e2 = eb
+	} else {
+		u2, e2 = b.Parse(ref)
+	}
+	if !sameResult(u1, e1, u2, e2) {
+		orc.Fail("C06", "entry-points-disagree", "Parser.ParseRef(base string) differs from Parser.Parse(base).Parse(ref) under parser "+c.Name, tok)
+	}
+}
+
+// crossParsers: the laws hold for EVERY parser, whatever other parsers of the process did before: parsers with different
+// options take turns on the same base string (both orders, the package-level functions in between)
+func crossParsers(r *Rand, o *Out) {
+	cfgs := []*Cfg{defaultCfg}
+	for i := range optSpecs {
+		cfgs = append(cfgs, cfgFromMask(r.Fork(), 1<<uint(i)))
+	}
+	for _, base := range crossBases {
+		for i, a := range cfgs {
+			b := cfgs[(i+1)%len(cfgs)]
+			ref := crossRefs[i%len(crossRefs)]
+			for _, pair := range [][2]*Cfg{{a, b}, {b, a}, {a, defaultCfg}, {defaultCfg, a}} {
+				x, y := pair[0], pair[1]
+				x.Parser.ParseRef(base, "d")
+				tok := "PR " + x.Tok + " " + xs(base) + " " + xs("d") + " ; PR " + y.Tok + " " + xs(base) + " " + xs(ref)
+				checkC06Cfg(y, base, ref, tok)
+				if y == defaultCfg {
+					x.Parser.ParseRef(base, "d")
+					checkC06(base, ref)
+				}
+			}
+			h := &Hist{}
+			h.ParseRef(a, base, "d")
+			h.ParseRef(b, base, ref)
+			h.ParseRefPkg(base, ref)
+			h.ParseRef(a, base, ref)
+			o.EmitHist("c", h)
+		}
+	}
+}
+
 func streamC06(r *Rand, n int, o *Out) {
+	crossParsers(r, o)
 	for _, b := range basePool {
 		h := &Hist{}
 		k := h.ParsePkg(b)
